@@ -341,6 +341,58 @@ def c05(ctx):
     ctx.proofs(['PegVerif.Props.C05Ast', 'PegVerif.Props.C05'])
     sw, by = core(ctx, [''], ['tree', 'ast'], note='Non-trivial = accepted with an AST of depth >= 3.')
     ctx.coverage['distinct_nontrivial'] = by.get('d', {}).get('nested_ast', 0)
+    ctx.coverage['evaluations'] = ctx.coverage.get('evaluations', 0) + c05_deep(ctx)
+
+
+def c05_deep(ctx):
+    """Deep derivation trees (the sweeps' trees are at most a few levels deep): nested parentheses, right recursion and a chain of
+    rules, up to depth 70 — SprintSyntaxTree (indentation per level) and the AST walk of the real parser against the Lean model
+    and the PEG semantics."""
+    T = ctx.T()
+    hdr = 'package g\n\ntype P Peg {\n Trace string\n STrace string\n}\n\n'
+    gs = {
+        'parens': (hdr + "R0 <- E !.\nE <- '(' E ')' / <'x'>\n", ['(' * d + 'x' + ')' * d for d in list(range(0, 24)) + [31, 32, 33, 47, 48, 49, 63, 64, 65, 70]]),
+        'rightrec': (hdr + "R0 <- L !.\nL <- 'a' L / 'b'\n", ['a' * d + 'b' for d in list(range(0, 24)) + [31, 32, 33, 48, 64, 65]]),
+        'chain': (hdr + ''.join('R%d <- R%d\n' % (i, i + 1) for i in range(0, 40)) + "R40 <- 'a' R0? / 'b'\n", ['b', 'ab', 'aab', 'aaab']),
+    }
+    reqs = [{'id': 'deep_' + k, 'text': v[0], 'opts': '', 'compile': True, 'src': True, 'tree': True} for k, v in gs.items()]
+    real = T.run_pegx_parallel(reqs)
+    M = L.RunModule()
+    for r, x in zip(reqs, real):
+        if x.get('compiled'):
+            M.add(r['id'], x['go'], True)
+    good = set(M.build(exclude=M.vet()))
+    cases, mreq = [], []
+    for r, x in zip(reqs, real):
+        if r['id'] not in good:
+            ctx.add('model', 'T-run/deep', 'the deep-tree grammar %s did not build' % r['id'], {'grammar': r['text']})
+            continue
+        lst = []
+        for ii, s in enumerate(gs[r['id'][5:]][1]):
+            k = '%s|%d' % (r['id'], ii)
+            cases.append({'pkg': r['id'], 'k': k, 'entry': 'R0', 'memo': True, 'b64': L.b64(s)})
+            lst.append({'k': k, 'entry': 'R0', 'memo': True, 'bytes': L.bytes_of(s), 'spec': True})
+        mreq.append({'id': r['id'], 'tree': x['tree'], 'opts': '', 'cases': lst})
+    robs = M.run(cases)
+    n = deepest = 0
+    for m in T.run_model('run', mreq):
+        for ob in m.get('obs', []):
+            ro = robs.get(ob['k']) or {'v': 'missing'}
+            n += 1
+            depth = max([len(l) - len(l.lstrip(' ')) for l in (ro.get('tree') or '').split('\n')] + [0])
+            deepest = max(deepest, depth)
+            for which in ('model', 'spec'):
+                if which == 'spec' and ob['spec'].get('v') == 'nofuel':
+                    continue
+                d = [f for f in L.obs_equal(ro, ob[which], True) if f in ('v', 'tree', 'ast', 'toks')]
+                if d:
+                    gid, ii = ob['k'].split('|')
+                    ctx.add('spec' if which == 'spec' else 'model', 'T-run/deep-' + which, 'real parser differs from the %s on %s for a deep derivation (input %r)' % (
+                        which, d, gs[gid[5:]][1][int(ii)][:80]), {'grammar': gs[gid[5:]][0], 'input': gs[gid[5:]][1][int(ii)], 'real_tree': (ro.get('tree') or '')[-600:],
+                                                                   which + '_tree': (ob[which].get('tree') or '')[-600:]})
+    ctx.coverage['deep_trees'] = {'cases': n, 'deepest_indentation_columns': deepest}
+    L.cleanup()
+    return n
 
 
 def c06(ctx):
